@@ -56,7 +56,7 @@ BASE = {"g96": 28, "xyz": 22, "lammpstrj": 12, "trr": 16, "gmxframe": 14,
 
 def plan(tier, seed):
     rng = random.Random(f"C19-{seed}")
-    njobs, scale = (32, 1) if tier == "quick" else (192, 12)
+    njobs, scale = (32, 6) if tier == "quick" else (192, 24)
     return [{"seed": rng.randrange(2 ** 31), "scale": scale,
              "hashseed": rng.randrange(1000)} for _ in range(njobs)]
 
@@ -1015,9 +1015,12 @@ def fam_cp2k(rec, rng, d, i):
     def none_text(val, e_lines, g_lines):
         nk = [k for k, v in val["data"].items() if v is None] \
             if isinstance(val["data"], dict) else []
-        return nk and sorted(e_lines) == sorted(
-            ln[:-5] if ln[:-5] in nk and ln.endswith(" None") else ln
-            for ln in g_lines)
+
+
+        def bare(lines):
+            return sorted(ln[:-5] if ln[:-5] in nk and ln.endswith(" None")
+                          else ln for ln in lines)
+        return nk and bare(e_lines) == bare(g_lines)
 
     rec.hit("cp2k_edit")
     addressing_lost = False
